@@ -184,3 +184,28 @@ package selftest
 //@ func BadNamedAlias
 //@   requires !isnil(h)
 //@   ensures result == old(h.p)
+
+//@ func GoodPrivateMap
+//@   ensures result == 3
+
+//@ func BadEscapedMap
+//@   ensures result == 3
+
+//@ func applyFn
+//@   noinline
+
+//@ func GoodParamCall
+//@   requires !isnil(o)
+//@   ensures result == 1
+
+//@ func BadParamCall
+//@   requires !isnil(o)
+//@   ensures result == 1
+
+//@ func GoodClosedIface
+//@   requires !isnil(o) && !isnil(i)
+//@   ensures result == 1
+
+//@ func BadClosedIface
+//@   requires !isnil(o) && !isnil(i) && !isnil(b)
+//@   ensures result == 1
